@@ -242,16 +242,27 @@ pub fn run(ctx: &mut Ctx) {
                     // solver's result passes its own documented test on the model data (the live one was judged above).
                     let mut both_within_tolerance = false;
                     if fail.is_none() && ((vl == 'S' && (vf == 'P' || vf == 'D')) || (vf == 'S' && (vl == 'P' || vl == 'D'))) {
-                        let pmf = presolve_model(&pm_problem, &st, &fresh, bound);
-                        let evf = eval_with_model(&pm_problem, &fresh, &pmf, bound);
-                        both_within_tolerance = if vf == 'S' {
-                            fresh.status == SolverStatus::Solved && kkt::judge_solved(&evf, st.tol_feas, st.tol_gap_abs, st.tol_gap_rel, 1.0).is_empty() && res.status != SolverStatus::AlmostPrimalInfeasible && res.status != SolverStatus::AlmostDualInfeasible
-                        } else if let Some(fe) = fresh.final_event() {
-                            let almost = matches!(fresh.status, SolverStatus::AlmostPrimalInfeasible | SolverStatus::AlmostDualInfeasible);
-                            !almost && res.status == SolverStatus::Solved && judge_certificate(&evf, vf == 'P', fe.κ, fresh.c, st.tol_infeas_abs, st.tol_infeas_rel).is_empty()
-                        } else {
-                            false
+                        // each result against the documented test of ITS OWN status (full or reduced accuracy) on the
+                        // model data; the live infeasibility certificate and a live Solved were judged above already
+                        let passes_own_test = |r: &problem::SolveResult| -> bool {
+                            let pmr = presolve_model(&pm_problem, &st, r, bound);
+                            let evr = eval_with_model(&pm_problem, r, &pmr, bound);
+                            match r.status {
+                                SolverStatus::Solved => kkt::judge_solved(&evr, st.tol_feas, st.tol_gap_abs, st.tol_gap_rel, 1.0).is_empty(),
+                                SolverStatus::AlmostSolved => kkt::judge_solved(&evr, st.reduced_tol_feas, st.reduced_tol_gap_abs, st.reduced_tol_gap_rel, 1.0).is_empty(),
+                                sx if problem::is_infeasible_status(sx) => match r.final_event() {
+                                    Some(fe) => {
+                                        let almost = matches!(sx, SolverStatus::AlmostPrimalInfeasible | SolverStatus::AlmostDualInfeasible);
+                                        let is_p = matches!(sx, SolverStatus::PrimalInfeasible | SolverStatus::AlmostPrimalInfeasible);
+                                        let (ta, tr) = if almost { (st.reduced_tol_infeas_abs, st.reduced_tol_infeas_rel) } else { (st.tol_infeas_abs, st.tol_infeas_rel) };
+                                        judge_certificate(&evr, is_p, fe.κ, r.c, ta, tr).is_empty()
+                                    }
+                                    None => false,
+                                },
+                                _ => false,
+                            }
                         };
+                        both_within_tolerance = passes_own_test(&res) && passes_own_test(&fresh);
                     }
                     if both_infeasible {
                         ctx.bump("primal_and_dual_infeasible_after_update_(either_verdict_valid)");
